@@ -10,11 +10,14 @@ CHECKS = {
         "tools.PriorityQueue refines the arrival-ordered list specification (pop = least priority, earliest arrival), "
         "keeps the heap invariant, loses/duplicates nothing, and ordered iteration restores the queue on all three "
         "restore branches; PosPriorityQueue insert/reschedule_all refine the positional-prefix list model. The model is "
-        "tied to the code on every run by a differential correspondence (same op lines through lean/Drivers/PQ.lean and "
-        "the real classes) plus an independent reference-list oracle on the real code.",
-   note="Trusted: Lean kernel + {propext, Classical.choice, Quot.sound}; heapq meets its documented contract "
-        "(HeapLib.Lawful hypothesis; the executable model transcribes heapq and is compared with the real arrays); "
-        "list.sort stable; hand-written model tied only on the explored histories; py2lean translator for __lt__.",
+        "tied to the code on every run twice: by translation (see the end of this text) and by a differential "
+        "correspondence (same op lines through lean/Drivers/PQ.lean and the real classes, arrays compared), plus an "
+        "independent reference-list oracle on the real code.",
+   note="Trusted: Lean kernel + {propext, Classical.choice, Quot.sound}; heapq meets its documented contract (HeapLib.Lawful "
+        "hypothesis; the executable model transcribes heapq and is compared with the real arrays); list.sort stable; the "
+        "translators' reading of Python (Model/PyRt.lean, Model/PosPQRt.lean: lists, for/break/else, aliasing by index, "
+        "PriorityValue by value). Both classes are translated (GenEqPQ, GenEqPosPQ, GenEq), so Model/PQ and Model/PosPQ are no "
+        "longer trusted as transcriptions; the reference specifications are hand-written.",
    technique="Lean 4 refinement proof + model/implementation differential correspondence",
    design="6 C17"),
  "C19": dict(
@@ -24,12 +27,14 @@ CHECKS = {
         "the queue length only; (3) boost_safe - a boost only touches regular entries inserted more than a queue length ago "
         "whose base priority is above the most urgent regular priority, makes them more urgent by at most "
         "factor*(base-min), never changes class/arrival (positional entries stay first); (4) boost_overtakes - a draw with "
-        "draw*factor>1 puts the straggler ahead of every regular entry. update_counters and compute_priority_boost are "
-        "regenerated from the source by the translator on every run and proved equal to the model's; the rest of the model is "
-        "tied by differential correspondence (counters, boosts, pop order after each op), plus an independent oracle on the "
+        "draw*factor>1 puts the straggler ahead of every regular entry. The whole class is regenerated from the source by the "
+        "translator on every run and proved equal to the model (see the end of this text); in addition a differential "
+        "correspondence (counters, boosts, pop order after each op) and an independent oracle on the "
         "real queue (pops until the straggler runs as a function of length and history; safety of every boost observed).",
-   note="Trusted: Lean kernel + standard axioms; model of do_maintenance/boost_stragglers tied only on explored histories; "
-        "Rat vs float compared with 1e-9 relative tolerance; random.random() replaced by a fixed value; heapq contract.",
+   note="Trusted: Lean kernel + standard axioms; the translators' reading of Python (Model/PosPQRt.lean, Model/PyRt.lean; the "
+        "random draw named by the entry's sequence number); Rat vs float compared with 1e-9 relative tolerance; random.random()"
+        " replaced by a fixed value; heapq contract. The whole maintenance machinery is translated (GenEqPosPQ), nothing of it "
+        "is tied by correspondence only.",
    technique="Lean 4 invariant + arithmetic proofs, source-to-Lean translation of the counter logic, differential correspondence",
    design="6 C19"),
  "C18": dict(
@@ -48,7 +53,9 @@ CHECKS = {
         "model; plus a multi-thread stress run with a minimal switch interval. PARTIAL with respect to where the interpreter "
         "really switches threads: no model exhibits the GIL's decisions; they are forced.",
    note="Trusted: Lean kernel + standard axioms; deque primitives and RLock behave as documented (atomic / mutual exclusion); "
-        "AST-level lock-coverage analysis in translator/py2lean.py; forced switches stand in for real preemption.",
+        "Model/Threads.lean is hand-written and has no correspondence driver; its lock-coverage assumption is regenerated from "
+        "the source and checked by `decide` (GenEqC18, 3 theorems); forced switches stand in for real preemption (partial "
+        "w.r.t. the GIL).",
    technique="Lean 4 invariant proof over all schedules + source-derived lock-coverage obligations + forced-interleaving harness",
    design="6 C18"),
  "C02": dict(
@@ -60,8 +67,9 @@ CHECKS = {
         "held Future is re-yielded with its handshake flag set; an erasure lemma (proto_nativeAwait_outs) restates the headline "
         "theorems literally about `Proto.nativeAwait b` for every `b : Body`. Tied to the code by running generated async-def bodies through "
         "the real wrappers, CPython's own `await` (the oracle) and the Lean driver.",
-   note="Trusted: Lean kernel + {propext, Quot.sound}; CPython's coroutine-object envelope and PEP 380 are modelled "
-        "(Model/Proto.lean), validated against the interpreter by the correspondence stream; contexts and eager are C04/C01.",
+   note="Trusted: Lean kernel + {propext, Quot.sound}; CPython's coroutine-object envelope and PEP 380 (Model/Proto.lean) and "
+        "the meaning of x.send/throw/close, CoroStart(...) and a tail `await x` for the generated wrappers (Model/WrapRt.lean) "
+        "are modelled, validated against the interpreter by the correspondence stream; contexts and eager are C04/C01.",
    technique="Lean 4 simulation proof (wrapper = native await) + differential correspondence against CPython's await",
    design="6 C02"),
  "C04": dict(
@@ -72,8 +80,10 @@ CHECKS = {
         "(ctx_none_native, by simulation); eager uses a private copy. Four decide-checked witnesses show the pre-fix code "
         "violated it. Correspondence: generated bodies x driver sequences x {context given, None, eager}; oracle reads the "
         "real ContextVars per segment.",
-   note="Trusted: Lean kernel + {propext, Quot.sound}; contextvars.Context.run modelled as swap-in/write-back; the "
-        "'empty Context is falsy' defect is covered by oracle+corpus only (a mapping has no emptiness in the model).",
+   note="Trusted: Lean kernel + {propext, Quot.sound}; contextvars.Context.run modelled as swap-in/write-back; the control flow"
+        " of Model/Ctx.lean (start_result, relay loop, athrow/aclose/throw/close) is hand-written and tied by correspondence "
+        "only - the context selection is translated (GenEqC04); the 'empty Context is falsy' defect is in the translation as "
+        "`nonEmpty` but not in the theorems' mappings; nested / shared-context uses are oracle-only.",
    technique="Lean 4 invariant/simulation proof + differential correspondence with real ContextVars",
    design="6 C04"),
  "C05": dict(
@@ -84,7 +94,8 @@ CHECKS = {
         "object's state and handshake flag are left untouched (awaitSync_leaves_awaited); aiter_sync equals async iteration. "
         "Correspondence and oracle: generated bodies vs native runs, coro_is_finished, __cause__ type, a later await of the "
         "blocked-on Future from an ordinary Task.",
-   note="Trusted: Lean kernel + {propext, Quot.sound}; Proto envelope modelled; async iterables modelled as a Body per __anext__.",
+   note="Trusted: Lean kernel + {propext, Quot.sound}; Proto envelope modelled; Model/WrapRt.lean (meaning of the method calls,"
+        " async iterables as a Body per __anext__); CoroStart.throw/close by the C01 unit.",
    technique="Lean 4 proof over arbitrary bodies + differential correspondence against native execution",
    design="6 C05"),
  "C11": dict(
@@ -97,8 +108,10 @@ CHECKS = {
         "the real PriorityLock/PriorityTask run one ready handle at a time, every event replayed by the Lean lock model; "
         "oracle: an independent wait-for-graph recomputation of every effective priority and the inversion bound on the "
         "priority loop.",
-   note="Trusted: Lean kernel + standard axioms; asyncio Task/Future kernel modelled inside Model/Lock.lean; acyclicity "
-        "(fixed lock order) is an explicit hypothesis; boosting switched off in these runs (C19's business).",
+   note="Trusted: Lean kernel + standard axioms; the kernel half of Model/Lock.lean (Task/Future stepping) and the "
+        "representation choices of Model/LockPrims.lean are hand-written, tied by trace acceptance; the lock layer itself is "
+        "translated (GenEqLock, 53 theorems); acyclicity (fixed lock order) is an explicit hypothesis; boosting switched off in"
+        " these runs (C19's business).",
    technique="Lean 4 proof on wait-for graphs + trace acceptance of real executions",
    design="6 C11"),
  "C12": dict(
@@ -107,8 +120,9 @@ CHECKS = {
         "overtaken by one that was strictly less urgent throughout, re-keying keeps the arrival rank and, in fault-free executions, every queued waiter with a pending "
         "future is keyed by its current effective priority (waiter_key_inv, handover_by_effective_priority). Tie: trace acceptance on both loops; oracle: at each real hand-over the receiver is the "
         "(recomputed effective priority, arrival)-minimal waiter.",
-   note="Trusted: Lean kernel + standard axioms; waiter queue modelled as an ordered list (the container is C17's); "
-        "Task/Future kernel modelled.",
+   note="Trusted: Lean kernel + standard axioms; waiter queue modelled as an ordered list (the container is C17's); Task/Future"
+        " kernel and Model/LockPrims.lean hand-written, tied by trace acceptance; "
+        "release/_wake_up_first/acquire/propagate_priority translated (GenEqLock).",
    technique="Lean 4 invariant proofs on the lock transition system + trace acceptance",
    design="6 C12"),
  "C13": dict(
@@ -120,8 +134,9 @@ CHECKS = {
         "(progress, drain_step_exists; a finite statement, not temporal logic over infinite fair schedules). Tie: "
         "trace acceptance (every real event enabled in the model, observations equal) on the stock and the priority loop; "
         "oracle: holder counter, wake-in-flight after every handle, all workers finish, no exception in a never-faulted worker.",
-   note="Trusted: Lean kernel + standard axioms; asyncio Task.__step/__wakeup/cancel and Future modelled; priorities of "
-        "waiters as an ordered list.",
+   note="Trusted: Lean kernel + standard axioms; asyncio Task.__step/__wakeup/cancel, Future, Event and Model/LockPrims.lean "
+        "hand-written, tied by trace acceptance; waiters as an ordered list; PriorityLock's own code translated (GenEqLock, 53 "
+        "theorems).",
    technique="Lean 4 invariant proof over all interleavings and fault placements + trace acceptance",
    design="6 C13"),
  "C20": dict(
@@ -131,8 +146,11 @@ CHECKS = {
         "helpers track ground truth computed from the history itself (helpers_track_history). Correspondence: real objects of "
         "the three kinds driven through histories (send/throw/close/asend/athrow/aclose, abandoned asend awaitables), "
         "observed before/after every step and from inside the running body.",
-   note="Trusted: Lean kernel + {propext, Quot.sound}; the table of attributes CPython 3.12 exposes per kind and phase is "
-        "modelled and validated by the correspondence; other interpreter versions would show up as disagreements.",
+   note="Trusted: Lean kernel + {propext, Quot.sound}; the table of attributes CPython 3.12 exposes per kind and phase and the "
+        "awaitable rules of genobject.c are hand-written, validated by the correspondence (other interpreter versions show up "
+        "as disagreements); Model/PyView.lean (which type has which attribute, AttributeError rules, "
+        "opmap['RETURN_GENERATOR']=75) and the transcribed CPython 3.12 inspect functions; the helpers themselves are "
+        "translated (GenEqC20).",
    technique="Lean 4 exhaustive case proof + differential correspondence with live coroutine objects",
    design="6 C20"),
  "C01": dict(
@@ -145,8 +163,10 @@ CHECKS = {
         "finishing in it (any exception kind incl. BaseException) creates no task (eager_prefix_sync, eager_done_no_task). "
         "decide-checked witnesses show the pre-fix code violated it. Tie: generated bodies compiled to real async-def source, "
         "run on a real loop under both drivers and through the Lean driver; oracle = the plain-Task run.",
-   note="Trusted: Lean kernel + {propext, Quot.sound}; Task.__step/__wakeup/cancel and the Future handshake are modelled; "
-        "custom task factories are covered by the correspondence only.",
+   note="Trusted: Lean kernel + {propext, Quot.sound}; Task.__step/__wakeup/cancel and the Future handshake (the asyncio half "
+        "of Model/EagerKernel.lean) are hand-written, tied by the correspondence; asynkit's CoroStart/_Continuation/coro_eager "
+        "are translated (GenEqC01, GenEqC01W) over a runtime record read as that kernel; custom task factories are covered by "
+        "the correspondence only.",
    technique="Lean 4 equivalence proof (eager run = plain Task) + differential correspondence on a real loop",
    design="6 C01"),
  "C03": dict(
@@ -157,9 +177,9 @@ CHECKS = {
         "`Delayed` view for the cancel-before-first-step window), and leaving cancelling()/eager_ctx never leaves a started "
         "coroutine suspended (ctx_exit_finishes). decide-checked witnesses for the pre-fix code (body never resumed). Tie and "
         "oracle as for C01 with cancels injected at each instant; coro_is_finished read before any GC.",
-   note="Trusted: as C01. Documented residual of the repair: a cancel issued before the continuation's first step takes "
-        "effect at that step; if the awaited object completes in between, a plain Task's cancel could have been absorbed "
-        "(covered by `Delayed`; the oracle accepts both orders).",
+   note="Trusted: as C01 (same translation unit). Documented residual of the repair: a cancel issued before the continuation's "
+        "first step takes effect at that step; if the awaited object completes in between, a plain Task's cancel could have "
+        "been absorbed (covered by `Delayed`; the oracle accepts both orders).",
    technique="Lean 4 equivalence proof under cancellation + differential correspondence with injected cancels",
    design="6 C03"),
  "C06": dict(
@@ -171,7 +191,8 @@ CHECKS = {
         "matching the property's exclusions. Three-way correspondence on generated bodies rendered from one AST: real GOI vs "
         "goi model, CPython native vs nativeAG model, real GOI vs CPython native (the oracle).",
    note="Trusted: Lean kernel + standard axioms; CPython's async-generator protocol is modelled (nativeAG) and validated "
-        "against the interpreter; two CPython 3.12.1 quirks (asend().close() on a suspended consumer, throw into a "
+        "against the interpreter; Model/MonitorRt.lean (runtime vocabulary of the generated GeneratorObjectIterator code, "
+        "asyncgen-hooks environment); two CPython 3.12.1 quirks (asend().close() on a suspended consumer, throw into a "
         "suspended aclose) are excluded and documented in notes/C06.md.",
    technique="Lean 4 bisimulation proof + three-way differential correspondence against native async generators",
    design="6 C06"),
@@ -186,8 +207,9 @@ CHECKS = {
         "a request addressed to its monitor); the pre-repair defect is kept as a decide'd witness on a frozen copy of the old "
         "model (stale_oob_after_close). Correspondence: generated bodies driven raw, inside a Task and by await_sync, Monitor.state after "
         "every call.",
-   note="Trusted: Lean kernel + standard axioms; Proto envelope modelled; PEP-380 delivery of GeneratorExit through nested "
-        "frames modelled in MonProg (generators avoid nested frames that swallow a closing GeneratorExit).",
+   note="Trusted: Lean kernel + standard axioms; Proto envelope modelled (Monitor.SCoro); Model/MonitorRt.lean (except-clause "
+        "tests, PEP 479, athrow's argument triple without CPython's normalisation); PEP-380 delivery of GeneratorExit through "
+        "nested frames modelled in MonProg (generators avoid nested frames that swallow a closing GeneratorExit).",
    technique="Lean 4 trace-refinement proof + differential correspondence",
    design="6 C07"),
  "C08": dict(
@@ -200,8 +222,10 @@ CHECKS = {
         "queue (caller ends exactly min(p,len) entries from the head, nothing else moves, ValueError changes nothing, each "
         "handle runs once). Correspondence: multi-task programs on the three real loop configurations vs the Lean scheduler "
         "model; oracle: an independent reference list; deque primitives exhaustively for lengths 0..64.",
-   note="Trusted: Lean kernel + standard axioms; collections.deque rotate/insert/remove and Task stepping modelled; the "
-        "RLock around PosPriorityQueue is C18's subject.",
+   note="Trusted: Lean kernel + standard axioms; collections.deque rotate/insert/remove (Model/Deque.lean) and Task stepping / "
+        "the program interpreter of Model/Sched.lean are hand-written, tied by correspondence; the synchronous scheduling code "
+        "and both containers are translated (GenEqC08, GenEqSched, GenEqPosPQ, GenEqPQ); the RLock around PosPriorityQueue is "
+        "C18's subject.",
    technique="Lean 4 refinement proofs (queue = list) + program-level differential correspondence on three loops",
    design="6 C08"),
  "C10": dict(
@@ -214,8 +238,9 @@ CHECKS = {
         "tasks/callbacks mixed in, priority changes, create_task_descend under PriorityLock contention, histories long "
         "enough for maintenance; oracle: at every resumption the resumed entry vs runnable_tasks() under the stated order, "
         "and log equality with SchedulingSelectorEventLoop for the equal-priority clause.",
-   note="Trusted: Lean kernel + standard axioms; get_priority/effective_priority evaluation at queueing time modelled in "
-        "Model/Sched; lock owners never wait on another lock in these programs (chains are C11/C12's).",
+   note="Trusted: Lean kernel + standard axioms; asyncio stepping and get_priority/effective_priority evaluation at queueing "
+        "time hand-written in Model/Sched (correspondence only); queue and mixin code translated (GenEqPosPQ, GenEqPQ, "
+        "GenEqSched); lock owners never wait on another lock in these programs (chains are C11/C12's).",
    technique="Lean 4 order/invariant proofs on the container model + program-level differential correspondence",
    design="6 C10"),
  "C14": dict(
@@ -227,9 +252,10 @@ CHECKS = {
         "reachable state; notify_not_lost per exit), and the partial ordereditems walk restores the waiter queue (cond_restore_pq, citing C17). Tie: trace "
         "acceptance of real producer/consumer runs stepped one handle at a time with faults at each phase, over PriorityLock "
         "and asyncio.Lock; oracles: lock owner at every exit, exception identity, tokens vs live waiters, wake order.",
-   note="Trusted: Lean kernel + standard axioms; the underlying lock is abstract (mutual exclusion assumed: C13 for "
-        "PriorityLock, stdlib for asyncio.Lock); runs on SelectorEventLoop only; the hand-over clause is claimed for "
-        "PriorityCondition (the subject of that sentence).",
+   note="Trusted: Lean kernel + standard axioms; Model/CondPrims.lean (Future, the abstract lock - mutual exclusion assumed: "
+        "C13 for PriorityLock, stdlib for asyncio.Lock -, the waiter queue at the level of C17's reference model, "
+        "asynccontextmanager); wait/notify code translated (GenEqC14); runs on SelectorEventLoop only; the hand-over clause is "
+        "claimed for PriorityCondition (the subject of that sentence).",
    technique="Lean 4 invariant proofs on the condition state machine + trace acceptance under injected faults",
    design="6 C14"),
  "C16": dict(
@@ -242,8 +268,10 @@ CHECKS = {
         "ties; oracles on the real code (nobody outlives a deadline, nothing reaches the task after the block, owning level, "
         "awaited tasks not cancelled). PARTIAL with respect to real time and the selector: that the timer fires at the "
         "deadline is asyncio plus the virtual clock, not proved.",
-   note="Trusted: Lean kernel + standard axioms; asyncio timers/_run_once batching modelled through the virtual-clock loops; "
-        "the third-refusal path of the interruptor is proved but not produced by the generator.",
+   note="Trusted: Lean kernel + standard axioms; Model/TimeoutPrims.lean (call_later, create_task, task_interrupt "
+        "accepted/refused, sleep(0), asynccontextmanager); asyncio timers/_run_once batching through the virtual-clock loops "
+        "(partial w.r.t. real time); task_timeout itself translated (GenEqC16); the third-refusal path of the interruptor is "
+        "proved but not produced by the generator.",
    technique="Lean 4 invariant proofs on the timeout state machine + virtual-clock trace acceptance",
    design="6 C16"),
  "C09": dict(
@@ -257,8 +285,10 @@ CHECKS = {
         "to the kernel model's predicates (GenEqC09). Tie: trace acceptance - real primitives stepped one ready handle at a time on "
         "the three loop configurations with PRNG-chosen environment actions, every event replayed by the Lean kernel; "
         "oracle: the partition identity after every action, from callbacks and from outside the stopped loop.",
-   note="Trusted: Lean kernel + standard axioms; asyncio Task.__step/__wakeup/cancel, Future callbacks and call_soon are "
-        "modelled (validated by trace acceptance); tasks await plain futures, gather() futures and futures whose cancel() is refused in recorded traces.",
+   note="Trusted: Lean kernel + standard axioms; asyncio Task.__step/__wakeup/cancel, Future callbacks and call_soon "
+        "(Model/Kernel.lean, Model/KernelPrims.lean) are hand-written, validated by trace acceptance; the predicates and "
+        "task_throw are translated (GenEqC09, GenEqC15); tasks await plain futures, gather() futures and futures whose cancel()"
+        " is refused in recorded traces.",
    technique="Lean 4 invariant proof over all kernel event sequences + trace acceptance",
    design="6 C09"),
  "C15": dict(
@@ -270,9 +300,10 @@ CHECKS = {
         "(awaited_untouched, no_kernel_error); await task_interrupt runs the target next (interrupt_runs_next). Tie: trace "
         "acceptance with throws, interrupts, cancels, mutual interruption and races with completion on three loops; oracle: "
         "per-interrupt delivery log, first task to log after task_interrupt, awaited objects, loop exception-handler calls.",
-   note="Trusted: as C09. A cancel() issued after task_throw but before the target runs is treated as superseding "
-        "(asyncio's Task.__step replaces a non-CancelledError by CancelledError; asynkit has no code on that path); an "
-        "orphaned shield() future is counted, not judged; stdlib asyncio.Lock sections use CancelledError-derived interrupts only.",
+   note="Trusted: as C09; the C-task path of task_throw (c_task_reschedule) is not modelled. A cancel() issued after task_throw"
+        " but before the target runs is treated as superseding (asyncio's Task.__step replaces a non-CancelledError by "
+        "CancelledError; asynkit has no code on that path); an orphaned shield() future is counted, not judged; stdlib "
+        "asyncio.Lock sections use CancelledError-derived interrupts only.",
    technique="Lean 4 invariant proofs with ghost delivery accounting + trace acceptance",
    design="6 C15"),
 }
@@ -300,7 +331,7 @@ TRANSLATED = {
         "every prologue length and frame position (GenEqC20, 11 theorems).",
  "C01": "Translation tie: CoroStart (_start, done, result, as_future, close, throw, __await__ segment by segment), _Continuation.send/throw, coro_eager, "
         "func_eager, eager, eager_ctx and tools.cancelling are re-translated from the source on every run (translator/corostart2lean.py) and proved equal "
-        "to the kernel model's eagerRun/contResume and to the protocol model's CoroStart transformer (GenEqC01 16 theorems, GenEqC01W 15).",
+        "to the kernel model's eagerRun/contResume and to the protocol model's CoroStart transformer (GenEqC01 15 theorems, GenEqC01W 15).",
  "C03": "Translation tie: _Continuation.throw's cancel-before-first-step decision, CoroStart.__await__'s relay segments and tools.cancelling's exit path are "
         "re-translated from the source on every run and proved equal to the model's contResume / cancelling transitions (GenEqC01: cont_eq, unstarted_eq, "
         "relay_eq, cancelling_eq).",
@@ -315,12 +346,12 @@ TRANSLATED = {
         "start, try_await and the six BoundMonitor methods are re-translated from the source on every run (translator/monitor2lean.py) and proved equal to "
         "the model's asendStart/asendResume/callStart/callResume/boundStart/boundResume (GenEqC07, 46 theorems).",
  "C11": "Translation tie: PriorityTask/PriorityLock effective_priority and propagate_priority (mutually recursive, with a recursion bound) and the acquire segments "
-        "are re-translated from the source on every run (translator/lock2lean.py) and proved equal to the model's effT/effL, propT/propL and events (GenEqLock, 52 theorems).",
+        "are re-translated from the source on every run (translator/lock2lean.py) and proved equal to the model's effT/effL, propT/propL and events (GenEqLock, 53 theorems).",
  "C12": "Translation tie: PriorityLock.release, _wake_up_first, _take_lock, propagate_priority and the three acquire segments (incl. the give-up path that re-keys "
-        "the owner) are re-translated from the source on every run and proved equal to the model's events in every reachable state (GenEqLock).",
+        "the owner) are re-translated from the source on every run and proved equal to the model's events in every reachable state (GenEqLock, 53 theorems).",
  "C13": "Translation tie: PriorityLock.acquire (entry, resumed by the future, resumed by any exception incl. the finally clause and the wake-up pass-on), release "
         "(by the owner and refused otherwise), _wake_up_first and _take_lock are re-translated from the source on every run and proved equal to the model's "
-        "acquire/resume/release/badRelease events in every reachable state (GenEqLock, 52 theorems).",
+        "acquire/resume/release/badRelease events in every reachable state (GenEqLock, 53 theorems).",
  "C14": "Translation tie: PriorityCondition._notify/notify/wait (with _released inlined: entry, wake, re-acquire raising, finish with the _notify(1) hand-over) and "
         "InterruptCondition.wait are re-translated from the source on every run (translator/cond2lean.py over the symbolic executor segexec.py) and proved "
         "equal to the model's waitStart/wake/acqExc/finish/notify transitions (GenEqC14, 19 theorems).",
@@ -328,7 +359,7 @@ TRANSLATED = {
         "interruptor segments of the three-try loop) is re-translated from the source on every run (translator/timeout2lean.py) and proved equal to the "
         "model's enter/exitOk/exitOther/fire/istep transitions (GenEqC16, 29 theorems).",
  "C04": "Translation tie: CoroStart._resume and, for each of the eight entry points, whether every coro.send/throw/close goes through it, and coro_eager's "
-        "copy_context(), are read off the source on every run and proved equal to the model's context selection (GenEqC04, 6 theorems).",
+        "copy_context(), are read off the source on every run and proved equal to the model's context selection (GenEqC04, 5 theorems).",
 }
 
 def main():
